@@ -1809,9 +1809,23 @@ export class AnyOfDiscriminatedRuntype extends BaseRuntype {
   }
   private getSchemaVariantRefs(ctx: SchemaContext): Array<{ key: string; ref: string }> {
     const unionHash = this.hash({ seen: Object.create(null) });
+    // tags that differ only in case or punctuation ("foo" / "Foo", "a-b" / "a b") read the same once sanitized:
+    // those (and only those) get their code units appended, so that every variant keeps a definition of its own
+    const keys = Object.keys(this.schemaMapping);
+    const partCount: Record<string, number> = Object.create(null);
+    for (const key of keys) {
+      const part = AnyOfDiscriminatedRuntype.sanitizeComponentNamePart(key);
+      partCount[part] = (partCount[part] ?? 0) + 1;
+    }
     return Object.entries(this.schemaMapping).map(([key, schema]) => ({
       key,
-      ref: this.ensureSchemaVariantRef(schema, key, unionHash, ctx),
+      ref: this.ensureSchemaVariantRef(
+        schema,
+        key,
+        unionHash,
+        ctx,
+        partCount[AnyOfDiscriminatedRuntype.sanitizeComponentNamePart(key)] > 1,
+      ),
     }));
   }
 
@@ -1846,10 +1860,22 @@ export class AnyOfDiscriminatedRuntype extends BaseRuntype {
       .join("");
   }
 
-  private static getSyntheticRefName(discriminator: string, key: string, unionHash: number): string {
+  private static getSyntheticRefName(
+    discriminator: string,
+    key: string,
+    unionHash: number,
+    ambiguousKey: boolean,
+  ): string {
     const discriminatorPart = AnyOfDiscriminatedRuntype.sanitizeComponentNamePart(discriminator);
     const keyPart = AnyOfDiscriminatedRuntype.sanitizeComponentNamePart(key);
-    return `Discriminated${discriminatorPart}${keyPart}${Math.abs(unionHash)}`;
+    let exactKey = "";
+    if (ambiguousKey) {
+      for (let i = 0; i < key.length; i++) {
+        exactKey += key.charCodeAt(i).toString(16).padStart(4, "0");
+      }
+      exactKey = "_" + exactKey + "_";
+    }
+    return `Discriminated${discriminatorPart}${keyPart}${exactKey}${Math.abs(unionHash)}`;
   }
 
   private ensureContextualDefinition(name: string, target: Runtype, ctx: SchemaContext): void {
@@ -1872,6 +1898,7 @@ export class AnyOfDiscriminatedRuntype extends BaseRuntype {
     key: string,
     unionHash: number,
     ctx: SchemaContext,
+    ambiguousKey: boolean,
   ): string {
     const printingContext = this.getPrintingContext(ctx);
     const refTarget = this.getRefTarget(runtype);
@@ -1884,6 +1911,7 @@ export class AnyOfDiscriminatedRuntype extends BaseRuntype {
       this.discriminator,
       key,
       unionHash,
+      ambiguousKey,
     );
     this.ensureContextualDefinition(syntheticRefName, runtype, ctx);
     return printingContext.getRef(syntheticRefName);
